@@ -340,6 +340,15 @@ int ops_misc(char **args, int na)
 			struct mtbl_reader *r = mtbl_reader_init(b->path, ro);
 			if (!r) _exit(11);
 			struct mtbl_iter *it;
+			const char *fk = kv(args + 2, na - 2, "first");
+			if (fk) {
+				/* an earlier lookup on the SAME reader (typically of a key in a later block): its entries are not counted */
+				uint8_t *k0; size_t kl0; const uint8_t *k, *v; size_t kl, vl;
+				if (unhex(fk, &k0, &kl0)) _exit(3);
+				struct mtbl_iter *it0 = mtbl_source_get(mtbl_reader_source(r), k0, kl0);
+				while (mtbl_iter_next(it0, &k, &kl, &v, &vl) == mtbl_res_success) ;
+				mtbl_iter_destroy(&it0);
+			}
 			if (gk) { uint8_t *k; size_t kl; if (unhex(gk, &k, &kl)) _exit(3); it = mtbl_source_get(mtbl_reader_source(r), k, kl); }
 			else it = mtbl_source_iter(mtbl_reader_source(r));
 			const uint8_t *k, *v; size_t kl, vl; long n = 0;
